@@ -22,10 +22,16 @@ def stop? (s : String) : Option (Option Stop) :=
     | ["d", v] => (iOfStr? v).map (fun v => some (.delta v))
     | _ => none
 
-def dates? (s : String) : Option (Option Dates) :=
+/-- number of walks of the caller's `dates` object at the iteration site of the kind (`Generated.datesWalks`, from the source) -/
+def walksOf (k : Kind) : Nat :=
+  (Generated.datesWalks.lookup (match k with | .ephem => "ephem" | .num => "num" | _ => "analytical")).getD 1
+
+/-- `L:` an object that can be walked again and again, `G:` a single-use iterator: what the propagation loop of the site sees -/
+def dates? (k : Kind) (s : String) : Option (Option Dates) :=
   if s = "-" then some none
   else match s.splitOn ":" with
-    | ["L", v] => (ints? v).map (fun l => some (.list l))
+    | ["L", v] => (ints? v).map (fun l => some (.list ((Src.again l).walkN (walksOf k)).1))
+    | ["G", v] => (ints? v).map (fun l => some (.list ((Src.once l).walkN (walksOf k)).1))
     | ["R", v] => match ints? v with
       | some [a, b, c, i] => some (some (.range a b c (i != 0)))
       | _ => none
@@ -37,14 +43,14 @@ def field? (key : String) (kv : List String) : Option String :=
     | _ => none)
 
 /-- `start=..;stop=..;step=..;dates=..;strict=0|1` -/
-def args? (s : String) : Option Args := do
+def args? (k : Kind) (s : String) : Option Args := do
   let kv := s.splitOn ";"
   let start ← optopt? (← field? "start" kv)
   let stop ← stop? (← field? "stop" kv)
   let stepS ← field? "step" kv
   -- `S`: the object passed is `propagator.step` itself (its value is the `h` of the line, filled in by `mkWorld`'s caller)
   let step ← if stepS = "S" then some (some (some 0)) else optopt? stepS
-  let dates ← dates? (← field? "dates" kv)
+  let dates ← dates? k (← field? "dates" kv)
   let strict ← field? "strict" kv
   pure { start := start, stop := stop, step := step, dates := dates, strict := strict != "0", stepSame := stepS = "S" }
 
@@ -62,14 +68,14 @@ def mkWorld (k : Kind) (order : Nat) (h : Int) (npts : Nat) (rs : List Int := []
   { kind := k, store := Prod.mk, sameState := fun a b => a == b, rs := fun len => rs.getD (len - 1) h,
     stepIdent := Generated.numStepTestIsIdentity, epoch := fun _ => 0, h := h, order := order, pts := (List.range npts).map (fun (j : Nat) => Int.ofNat j * h) }
 
-def call? (s : String) : Option Call :=
+def call? (k : Kind) (s : String) : Option Call :=
   match s.splitOn "/" with
   | ["P", o, d] => do pure (.propagate (← o.toNat?) (← iOfStr? d))
   | ["M", o] => do pure (.modify (← o.toNat?))
   | ["B", o] => do pure (.modifyMeta (← o.toNat?))
   | ["I", o, c, ls, a] => do
     let ls ← if ls = "-" then some [] else (ls.splitOn ".").mapM String.toNat?
-    pure (.iter (← o.toNat?) (← args? a) ls (← c.toNat?))
+    pure (.iter (← o.toNat?) (← args? k a) ls (← c.toNat?))
   | _ => none
 
 def optStr : Option Int → String
@@ -102,9 +108,9 @@ def histOp (k : Kind) (fuel order : Nat) (h : Int) (npts nls : Nat) (calls : Lis
     (s, acc.2 ++ [runStr res.run ++ s!" b{b} r{s.rebinds} v{v} e{(res.evs.map List.length).sum} p" ++ joinWith "," (s.prev.map optStr)])) (s0, [])
   joinWith " | " outs
 
-def iop? (h : Int) (s : String) : Option IOp :=
+def iop? (k : Kind) (h : Int) (s : String) : Option IOp :=
   match s.splitOn "/" with
-  | ["C", o, a] => do pure (.create (← o.toNat?) (ownStep h (← args? a)))
+  | ["C", o, a] => do pure (.create (← o.toNat?) (ownStep h (← args? k a)))
   | ["A", it, k] => do pure (.advance (← it.toNat?) (← k.toNat?))
   | ["P", o, d] => do pure (.propagate (← o.toNat?) (← iOfStr? d))
   | _ => none
@@ -121,19 +127,19 @@ def interOp (k : Kind) (fuel order : Nat) (h : Int) (props : List Nat) (epochs :
 def handle : List String → Option String
   | ["c08iter", k, fuel, order, h, npts, a, rs] =>
     -- `rs`: lengths of the integration steps the real propagator took in its main loop (`-`: none recorded: all `h`)
-    some (match kindOf? k, fuel.toNat?, order.toNat?, iOfStr? h, npts.toNat?, args? a, (if rs = "-" then some [] else ints? rs) with
+    some (match kindOf? k, fuel.toNat?, order.toNat?, iOfStr? h, npts.toNat?, (kindOf? k).bind (args? · a), (if rs = "-" then some [] else ints? rs) with
       | some k, some fuel, some order, some h, some npts, some a, some rs =>
         runStr (iterRun (mkWorld k order h npts rs) fuel 0 (ownStep h a) false).2
       | _, _, _, _, _, _, _ => "bad-op")
   | "c08inter" :: k :: fuel :: order :: h :: props :: epochs :: ops =>
     some (match kindOf? k, fuel.toNat?, order.toNat?, iOfStr? h, (props.splitOn ".").mapM String.toNat?, (epochs.splitOn ".").mapM iOfStr? with
       | some k, some fuel, some order, some h, some props, some epochs =>
-        match ops.mapM (iop? h) with
+        match ops.mapM (iop? k h) with
         | some ops => interOp k fuel order h props epochs ops
         | none => "bad-op"
       | _, _, _, _, _, _ => "bad-op")
   | "c08hist" :: k :: fuel :: order :: h :: npts :: nls :: calls =>
-    some (match kindOf? k, fuel.toNat?, order.toNat?, iOfStr? h, npts.toNat?, nls.toNat?, calls.mapM call? with
+    some (match kindOf? k, fuel.toNat?, order.toNat?, iOfStr? h, npts.toNat?, nls.toNat?, (kindOf? k).bind (fun kk => calls.mapM (call? kk)) with
       | some k, some fuel, some order, some h, some npts, some nls, some calls => histOp k fuel order h npts nls calls
       | _, _, _, _, _, _, _ => "bad-op")
   | _ => none
